@@ -4,7 +4,7 @@ tier=${1:-quick}
 rc_all=0
 for i in 01 02 03 04 05 06 07 08 09 10 11 12 13 14 15 16 17 18 19 20; do
   s=$(date +%s.%N)
-  out=$(/verif/check C$i $tier 2>&1); rc=$?
+  out=$(${A5VERIF_ROOT:-/verif}/check C$i $tier 2>&1); rc=$?
   e=$(date +%s.%N)
   printf "C%s rc=%s %.1fs %s\n" $i $rc $(echo "$e - $s" | bc) "$(echo "$out" | grep -E '^C[0-9]+ ' | head -1)"
   if [ $rc -ne 0 ]; then echo "$out" | tail -5; rc_all=1; fi
